@@ -15,6 +15,11 @@ INF = 500000000
 def nameset(kind, nv, nalg, nlog, nobj):
     if kind == "plain":
         return (["x%d" % i for i in range(nv)], ["c%d" % i for i in range(nalg)], ["L%d" % i for i in range(nlog)], ["cost%d" % i for i in range(nobj)])
+    if kind == "long":             # distinct names of 260..280 characters
+        def long_(p, i):
+            return "%s%d['%s','%s']" % (p, i, "warehouse_" * 13, ("customer_%d_" % i) * 11)
+        return ([long_("Ship", i) for i in range(nv)], [long_("Balance", i) for i in range(nalg)],
+                [long_("Either", i) for i in range(nlog)], [long_("TotalCost", i) for i in range(nobj)])
     if kind == "derivedlike":      # names that look like the converter's counted copies of a neighbour's name
         return (["v"] + ["v_%d_" % (i + 1) for i in range(1, nv)], ["c"] + ["c_%d_" % (i + 1) for i in range(1, nalg)],
                 ["c_%d_" % (nalg + i + 1) for i in range(nlog)], ["c_%d_" % (nalg + nlog + i + 2) for i in range(nobj)])
@@ -35,7 +40,7 @@ def run(tier):
     g = tlc("GenNames", "GenNames.cfg", cwd=sd, workers=NPROC)
     tlc_must_pass(g, "GenNames")
     gen = printed_json(g, "CASE")
-    if len(gen) != 5 * 6 * 3 * 4 * 6 * 4:
+    if len(gen) != 5 * 8 * 3 * 4 * 6 * 5:
         raise Broken("GenNames produced %d cases" % len(gen))
     gen.sort(key=lambda c: json.dumps(c, sort_keys=True))
     rnd = random.Random(seed())
